@@ -9,7 +9,7 @@ CONSTANTS
   MinH3 = 2
   FundingRole = FALSE
   MaxExplored = 1
-  MaxDup = 1
+  MaxDup = 0
   MaxRestarts = 1
   Intermediate = TRUE
 INVARIANT HistoryOK
